@@ -121,6 +121,43 @@ theorem C07_bytes_survive (s : St) (p : Path) (a : Addr) (m : Method) (k : Nat) 
     · obtain ⟨o, ho, hb⟩ := hmoved
       exact ⟨o, by rw [hc]; exact ho, hb⟩
 
+/-- `carry-in` of a changed file whose way back to the workspace fails with an I/O error (disk full, a
+    size limit …): the file is moved into the cache and unlinked, `recheck_from_cache` fails — and since
+    the repair F25 the records are saved all the same (before it the command panicked here) -/
+def carryInFailedRecheckMicro (p : Path) (e : Ent) (r' : Rec) (a : Addr) : List Micro :=
+  [mMoveIn p a, mUnlinkWs p, mSaveRec e r']
+
+/-- **C07_carryIn_failed_recheck_recorded**: after such a failure the bytes of the file are in the cache
+    under the digest the records now name for the path (`Safe`): `xvc file recheck` brings them back. -/
+theorem C07_carryIn_failed_recheck_recorded (s : St) (p : Path) (e : Ent) (r' : Rec) (d : Digest) (b : Bytes) (w : Bool)
+    (st : Nat) (l : Option Addr) (hw : s.ws p = some (.file b w st l)) (hcur : r'.cur = some d)
+    (hnc : NoCollision s (addrOf p d) b) :
+    Safe (runMicro s (carryInFailedRecheckMicro p e r' (addrOf p d))) p e b := by
+  have hmoved : ∃ o, (mMoveIn p (addrOf p d) s).cache (addrOf p d) = some o ∧ o.b = b := by
+    unfold mMoveIn
+    cases hc : s.cache (addrOf p d) with
+    | some o => exact ⟨o, by simp [hc], hnc o hc⟩
+    | none =>
+      simp only [Option.isSome_none, Bool.false_eq_true, if_false]
+      unfold St.moveToCache
+      simp [hw]
+  obtain ⟨o, ho, hb⟩ := hmoved
+  right
+  refine ⟨r', d, o, ?_, hcur, ?_, hb⟩
+  · simp [runMicro, carryInFailedRecheckMicro, mSaveRec, upd]
+  · simp only [runMicro, carryInFailedRecheckMicro, List.foldl_cons, List.foldl_nil, mSaveRec, setRec_cache]
+    rw [mUnlinkWs_cache]; exact ho
+
+/-- before the repair the records were not saved: the new bytes sat in the cache under a digest no
+    record named, the workspace file was gone and `recheck` restored the previous version -/
+theorem C07_carryIn_failed_recheck_counterexample_before_fix :
+    let s0 := ((St.init.userWrite ⟨0, 1⟩ [104]).track {} {} [⟨0, 1⟩]).1
+    let s1 := s0.userWrite ⟨0, 1⟩ [105]
+    let s2 := runMicro s1 [mMoveIn ⟨0, 1⟩ ⟨⟨0, [105]⟩, 1⟩, mUnlinkWs ⟨0, 1⟩]
+    s2.readThrough ⟨0, 1⟩ = none ∧ (s2.recs 1).map (·.cur) = some (some ⟨0, [104]⟩) ∧
+    (s2.cache ⟨⟨0, [105]⟩, 1⟩).map (·.b) = some [105] := by
+  decide
+
 /-- **C07_store_file_atomic** (K3a repaired): at every kill point of a store save, every *visible* file
     of the directory is complete — a reader never sees an empty or partial event log. -/
 theorem C07_store_file_atomic (d : List DirEntry) (n : Nat) (k : Nat) (hd : ∀ x ∈ visible d, x.complete = true)
@@ -294,3 +331,7 @@ open Repo in
 #print axioms C07_carryIn_rerun_counterexample
 open Repo in
 #print axioms C07_recheck_rerun_converges
+open Repo in
+#print axioms C07_carryIn_failed_recheck_recorded
+open Repo in
+#print axioms C07_carryIn_failed_recheck_counterexample_before_fix
